@@ -191,5 +191,16 @@ func (i *DeleteOrUpdateInvTask) destroySuccessful(taskContext *taskrunner.TaskCo
 	if len(taskContext.InventoryManager().TimeoutReconciles()) > 0 {
 		return false
 	}
+	// if any deletes were skipped and the object was not abandoned, the object
+	// is still in the cluster and must stay in the inventory
+	skippedDeletes := taskContext.InventoryManager().SkippedDeletes()
+	if len(skippedDeletes.Diff(taskContext.AbandonedObjects())) > 0 {
+		return false
+	}
+	// if any previously tracked objects are invalid, they were not deleted
+	// and must stay in the inventory
+	if len(i.PrevInventory.Intersection(taskContext.InvalidObjects())) > 0 {
+		return false
+	}
 	return true
 }
